@@ -15,7 +15,7 @@ REQUIRED_FLAGS = ["insertion_order_reverse", "insertion_order_ons_first", "after
                   "same_pitch_two_channels", "shorter_than_smallest_value", "non_note_event"]
 
 DEFAULT = [24, 12, 6, 16, 8, 4, 36, 18, 9]
-VALUE_LISTS = [[4], [4, 8], [8, 4], [3, 6, 12], [6], None]
+VALUE_LISTS = [[4], [4, 8], [8, 4], [3, 6, 12], [6], None, [8, 4, 12, 8, 4]]      # the last one names values twice
 PITCH_VARIANTS = [60, 21, 107, 64]
 CHAN_VARIANTS = [(0, 1), (2, 9), (0, 15)]
 
